@@ -1052,6 +1052,10 @@ impl<'p> Interp<'p> {
                 self.log.push(Ev::Mark(*k as i32));
                 Ok(a.remove(0))
             }
+            ("es", [V::Int(_, k)]) => {
+                self.log.push(Ev::Mark(*k as i32));
+                Ok(V::Str(format!("{k}")))
+            }
             ("eb", [V::Int(_, k), V::Bool(b)]) => {
                 self.log.push(Ev::MarkB(*k as i32, *b));
                 Ok(V::Bool(*b))
@@ -1133,6 +1137,9 @@ impl<'p> Interp<'p> {
                 Ok(V::List(Rc::new(RefCell::new(v))))
             }
             (V::Tr(k), "payload", []) => Ok(V::Int(IntTy::U64, k as i128)),
+            (V::Str(a), "contains", [V::Str(b)]) => Ok(V::Bool(a.contains(b.as_str()))),
+            (V::Str(a), "starts_with", [V::Str(b)]) => Ok(V::Bool(a.starts_with(b.as_str()))),
+            (V::Str(a), "append", [V::Str(b)]) => Ok(V::Str(a + b)),
             (v, "to_string", []) => match v.display() {
                 Some(s) => Ok(V::Str(s)),
                 None => stuck("to_string of aggregate"),
